@@ -1,0 +1,282 @@
+//go:build verif
+
+// Contracts for govc (/verif): C08 peer message parsing is total and faithful. Comment-only file.
+
+package p2p
+
+//@ func parseTransactionsPayload
+//@   property C08
+//@   requires len(data) <= TransportMessageMaxSize
+//@   modifies nothing
+//@   ensures [shape] err == nil ==> len(data) >= 1 && len(result0) == old(data[0])
+//@   loop 0 invariant len(data_0) <= TransportMessageMaxSize
+
+//@ -- sync point codec, positional layer: 4 (magic+version) + 2 (count) + 72 per point
+//@ func unmarshalSyncPoints
+//@   property C08
+//@   modifies nothing
+//@   ensures [size] err == nil ==> len(b) >= 6 + 72 * len(result0)
+//@   ensures [nonnil] err == nil ==> forall i int :: 0 <= i && i < len(result0) ==> result0[i] != nil
+//@   loop 0 invariant common.DecOK(dec) && common.Len(dec) == len(b) - 4 && common.Pos(dec) == 2 + 72 * (rangeindex + 1) && common.Pos(dec) <= common.Len(dec)
+//@   loop 0 invariant forall i int :: 0 <= i && i <= rangeindex ==> points[i] != nil
+//@   loop 0 invariant io.EOF != nil -- the heap component holding interface cells is havocked at the loop head; EOF is never written
+
+//@ func marshalSyncPoints
+//@   property C08
+//@   requires forall i int :: 0 <= i && i < len(points) ==> points[i] != nil
+//@   requires [count] len(points) <= common.MaximumEncodingInt -- otherwise Encoder.WriteInt panics (documented rejection); 65535 sync points = consensus nodes is out of reach
+//@   ensures [size] len(result) == 6 + 72 * len(points)
+//@   loop 0 invariant common.EncOK(enc) && len(enc.buf) == 6 + 72 * (rangeindex + 1)
+
+//@ -- What handlePeerMessage / relayOrHandlePeerMessage dereference in a parsed message (C07: a decoded snapshot has 1..255 transactions).
+//@ spec HasSnapshot(t uint8) bool = t == PeerMessageTypeBatchSnapshotAnnouncement || t == PeerMessageTypeBatchFullChallenge || t == PeerMessageTypeBatchSnapshotFinalization
+//@ spec MsgOK(m *PeerMessage) bool = m != nil && len(m.Data) <= TransportMessageMaxSize &&
+//@     (HasSnapshot(m.Type) ==> m.Snapshot != nil && 1 <= len(m.Snapshot.Transactions) && len(m.Snapshot.Transactions) <= common.SnapshotTransactionsMaximum)
+
+//@ -- Exact wire size of the fixed-size messages (-1: not a fixed-size type).
+//@ spec FixedSize(t uint8) mathint = t == PeerMessageTypePing ? 1 : t == PeerMessageTypeAuthentication ? 138 : t == PeerMessageTypeSnapshotConfirm ? 33 :
+//@     t == PeerMessageTypeTransactionRequest ? 33 : t == PeerMessageTypeBatchSnapshotResponse ? 65 : 0 - 1
+
+//@ -- Size/count relation between the accepted bytes and the parsed message, per type (same formulas as the builders' postconditions).
+//@ spec SizeOK(t uint8, data []byte, m *PeerMessage) bool =
+//@     t == PeerMessageTypePreCommitments ? (len(data) == 67 + 32 * len(m.Commitments) && 1 <= len(m.Commitments) && len(m.Commitments) <= 1024 && len(m.unsigned) == len(data) - 65 && m.signature != nil) :
+//@     t == PeerMessageTypeGraph ? (len(data) >= 71 + 72 * len(m.Graph) && len(m.unsigned) == len(data) - 65 && m.signature != nil) :
+//@     t == PeerMessageTypeBatchSnapshotCommitment ? (len(data) == 129 + 32 * len(m.WantTxs) && len(m.unsigned) == len(data) - 65 && m.signature != nil) :
+//@     t == PeerMessageTypeBatchSnapshotAnnouncement ? (len(data) >= 101 && m.signature != nil) :
+//@     t == PeerMessageTypeBatchTransactionChallenge ? (len(data) >= 106 && len(m.Transactions) == data[105]) :
+//@     t == PeerMessageTypeBatchFullChallenge ? len(data) >= 257 :
+//@     t == PeerMessageTypeTransaction ? len(m.Transactions) == 1 :
+//@     (t == PeerMessageTypeTransactionBundle || t == PeerMessageTypeFinalizedTransactionBundle) ? (len(data) >= 2 && len(m.Transactions) == data[1]) :
+//@     t == PeerMessageTypeRelay ? (len(data) >= 65 && len(m.Data) == len(data)) :
+//@     t == PeerMessageTypeConsumers ? len(m.Data) == len(data) - 1 :
+//@     t == PeerMessageTypeAuthentication ? len(m.Data) == 137 :
+//@     true
+
+//@ -- Precondition: len(data) <= TransportMessageMaxSize is what the receive path guarantees ((*QuicClient).receiveWithLimit: m.Size <= maxSize <= TransportMessageMaxSize,
+//@ -- Data = make([]byte, m.Size)) and, for relayed messages, what MsgOK carries (msg.Data[65:]). It makes the uint32 arithmetic `4+size` exact.
+//@ func parseNetworkMessage
+//@   property C08
+//@   requires len(data) <= TransportMessageMaxSize
+//@   modifies nothing -- writes only objects it allocates (msg, sig, keys) or that the snapshot decoder allocated (msg.Snapshot.Signature = nil)
+//@   ensures [some] err == nil ==> result0 != nil && result0.Type == old(data[0]) && result0.version == version
+//@   ensures [fail-nil] err != nil ==> result0 == nil
+//@   ensures [handler-pre] err == nil ==> MsgOK(result0)
+//@   ensures [sizes] err == nil ==> SizeOK(old(data[0]), data, result0)
+//@   ensures [fixed-accept] len(data) >= 1 && FixedSize(old(data[0])) >= 0 ==> (err == nil <==> len(data) == FixedSize(old(data[0])))
+//@   ensures [empty] len(data) < 1 ==> err != nil
+//@   ensures [fixed-fields] err == nil ==> (
+//@       old(data[0]) == PeerMessageTypeSnapshotConfirm ? (forall j int :: 0 <= j && j < 32 ==> result0.SnapshotHash[j] == old(data[1 + j])) :
+//@       old(data[0]) == PeerMessageTypeTransactionRequest ? (forall j int :: 0 <= j && j < 32 ==> result0.TransactionHash[j] == old(data[1 + j])) :
+//@       old(data[0]) == PeerMessageTypeBatchSnapshotResponse ? (forall j int :: 0 <= j && j < 32 ==> result0.SnapshotHash[j] == old(data[1 + j]) && result0.Response[j] == old(data[33 + j])) :
+//@       true)
+//@   ensures [short-commitments] len(data) >= 1 && old(data[0]) == PeerMessageTypePreCommitments && len(data) < 80 ==> err != nil
+//@   ensures [points] err == nil ==> ((result0.Type == PeerMessageTypeBatchSnapshotAnnouncement || result0.Type == PeerMessageTypeBatchSnapshotCommitment || result0.Type == PeerMessageTypeBatchFullChallenge) ==> result0.Commitment.CheckKey()) &&
+//@       (result0.Type == PeerMessageTypeBatchFullChallenge ==> result0.Challenge.CheckKey())
+//@   ensures [commitment-points] err == nil && old(data[0]) == PeerMessageTypePreCommitments ==> forall k int :: 0 <= k && k < len(result0.Commitments) ==> result0.Commitments[k] != nil && result0.Commitments[k].CheckKey()
+//@   loop 0 invariant i < count
+//@   loop 0 invariant forall k int :: 0 <= k && k < len(msg.Commitments) ==> msg.Commitments[k] != nil && msg.Commitments[k].CheckKey()
+//@   loop 0 invariant msg.Type == old(data[0]) && msg.version == version && len(msg.Data) == 0 && len(msg.Commitments) == i
+//@   loop 0 invariant cap(msg.Commitments) == 0 || fresh(msg.Commitments) -- appends write only memory allocated by this call (frame)
+//@   loop 1 invariant 32 * i + 32 <= len(txs)
+//@   loop 1 invariant msg.Type == old(data[0]) && msg.version == version && len(msg.Data) == 0 && len(msg.WantTxs) == i && msg.Commitment.CheckKey()
+//@   loop 1 invariant cap(msg.WantTxs) == 0 || fresh(msg.WantTxs) -- appends write only memory allocated by this call (frame)
+
+// ───────────── builders: output length and field offsets ─────────────
+
+//@ -- ASSUMED interface contracts of SyncHandle (implemented by kernel.Node): signing and graph building do not write p2p-visible memory.
+//@ assume func (h SyncHandle) SignData
+//@   modifies nothing
+//@ assume func (h SyncHandle) BuildGraph
+//@   modifies nothing
+//@   ensures [points] len(result) <= common.MaximumEncodingInt && forall i int :: 0 <= i && i < len(result) ==> result[i] != nil
+
+//@ spec HashAt(b []byte, off mathint, h crypto.Hash) bool = forall j int :: 0 <= j && j < 32 ==> b[off + j] == h[j]
+
+//@ func buildSnapshotConfirmMessage
+//@   property C08, C31
+//@   ensures [layout] len(result) == 33 && result[0] == PeerMessageTypeSnapshotConfirm
+//@   ensures [hash] HashAt(result, 1, snap)
+
+//@ func buildTransactionRequestMessage
+//@   property C08, C31
+//@   ensures [layout] len(result) == 33 && result[0] == PeerMessageTypeTransactionRequest
+//@   ensures [hash] HashAt(result, 1, tx)
+
+//@ func buildSnapshotResponseMessage
+//@   property C08, C31
+//@   requires si != nil
+//@   ensures [layout] len(result) == 65 && result[0] == PeerMessageTypeBatchSnapshotResponse
+//@   ensures [hash] HashAt(result, 1, snap)
+//@   ensures [response] forall j int :: 0 <= j && j < 32 ==> result[33 + j] == si[j]
+
+//@ func buildBatchSnapshotCommitmentMessage
+//@   property C08, C31
+//@   requires [handle] handle != nil -- me.handle, set once by NewPeer from the kernel node
+//@   ensures [layout] len(result) == 129 + 32 * len(wantTxs) && result[0] == PeerMessageTypeBatchSnapshotCommitment
+//@   loop 0 invariant len(data) == 64 + 32 * (rangeindex + 1)
+
+//@ func buildCommitmentsMessage
+//@   property C08
+//@   requires [handle] handle != nil -- me.handle, set once by NewPeer from the kernel node
+//@   requires [keys] forall i int :: 0 <= i && i < len(commitments) ==> commitments[i] != nil
+//@   panics when len(commitments) > 1024
+//@   ensures [layout] len(result) == 67 + 32 * len(commitments) && result[0] == PeerMessageTypePreCommitments
+//@   loop 0 invariant len(data) == 2 + 32 * (rangeindex + 1)
+
+//@ func buildGraphMessage
+//@   property C08
+//@   requires [handle] handle != nil -- me.handle, set once by NewPeer from the kernel node
+//@   ensures [layout] len(result) >= 71 && (len(result) - 71) % 72 == 0 && result[0] == PeerMessageTypeGraph
+
+//@ -- func buildTransactionsPayload: contract in zz_contracts_c31_verif.go (properties C31, C08)
+
+//@ -- func buildTransactionsMessage: contract in zz_contracts_c31_verif.go (properties C31, C08)
+
+//@ -- func buildTransactionMessage: contract in zz_contracts_c31_verif.go (properties C31, C08)
+
+//@ func buildBatchTransactionChallengeMessage
+//@   property C08, C31
+//@   requires cosi != nil
+//@   requires [txs] forall i int :: 0 <= i && i < len(txs) ==> txs[i] != nil && common.DecodedTx(&txs[i].SignedTransaction)
+//@   requires len(txs) <= common.SnapshotTransactionsMaximum
+//@   ensures [layout] len(result) >= 106 + 4 * len(txs) && result[0] == PeerMessageTypeBatchTransactionChallenge && result[105] == len(txs)
+//@   ensures [hash] HashAt(result, 1, snap)
+
+//@ func buildBatchFullChallengeMessage
+//@   property C08, C31
+//@   requires s != nil && s.Version == common.SnapshotVersionCommonEncoding && commitment != nil && challenge != nil
+//@   requires [txs] forall i int :: 0 <= i && i < len(txs) ==> txs[i] != nil && common.DecodedTx(&txs[i].SignedTransaction)
+//@   requires len(txs) <= common.SnapshotTransactionsMaximum
+//@   ensures [layout] len(result) >= 70 + 4 * len(txs) && result[0] == PeerMessageTypeBatchFullChallenge
+
+//@ func buildBatchSnapshotAnnouncementMessage
+//@   property C08, C31
+//@   requires s != nil && s.Version == common.SnapshotVersionCommonEncoding
+//@   ensures [layout] len(result) >= 97 && result[0] == PeerMessageTypeBatchSnapshotAnnouncement
+
+//@ func buildBatchSnapshotFinalizationMessage
+//@   property C08, C31
+//@   requires s != nil && s.Version == common.SnapshotVersionCommonEncoding
+//@   ensures [layout] len(result) >= 1 && result[0] == PeerMessageTypeBatchSnapshotFinalization
+
+//@ func buildAuthenticationMessage
+//@   property C08, C31
+//@   ensures [layout] len(result) == 1 + len(data) && result[0] == PeerMessageTypeAuthentication
+
+//@ func (me *Peer) buildRelayMessage
+//@   property C08, C31
+//@   requires me != nil
+//@   panics when len(msg) > TransportMessageMaxSize
+//@   ensures [layout] len(result) == 65 + len(msg) && result[0] == PeerMessageTypeRelay
+//@   ensures [payload] forall j int :: 0 <= j && j < len(msg) ==> result[65 + j] == msg[j]
+
+// ───────────── consumers of a parsed message (sweep: no implicit panic given the parser's postcondition) ─────────────
+
+//@ -- ASSUMED, outside the parsing property: the kernel side of SyncHandle (may do anything to kernel state; AuthenticateAs returns a token iff no error),
+//@ -- and the peer routing/caching helpers (ristretto caches, sync maps, channels: out of the verified subset). They are only reached AFTER parsing succeeded.
+//@ assume func (h SyncHandle) CosiQueueExternalPreCommitments
+//@   modifies *
+//@ assume func (h SyncHandle) UpdateSyncPoint
+//@   modifies *
+//@ assume func (h SyncHandle) SendTransactionToPeer
+//@   modifies *
+//@ assume func (h SyncHandle) CacheQueueTransactions
+//@   modifies *
+//@ assume func (h SyncHandle) CacheStoreTransactions
+//@   modifies *
+//@ assume func (h SyncHandle) CosiQueueExternalAnnouncement
+//@   modifies *
+//@ assume func (h SyncHandle) CosiAggregateSelfCommitments
+//@   modifies *
+//@ assume func (h SyncHandle) CosiQueueExternalChallenge
+//@   modifies *
+//@ assume func (h SyncHandle) CosiQueueExternalFullChallenge
+//@   modifies *
+//@ assume func (h SyncHandle) CosiAggregateSelfResponses
+//@   modifies *
+//@ assume func (h SyncHandle) VerifyAndQueueAppendSnapshotFinalization
+//@   modifies *
+//@ assume func (h SyncHandle) AuthenticateAs
+//@   modifies nothing -- verifies a signature against kernel state; does not touch the Peer or the message bytes
+//@   ensures [token] err == nil ==> result0 != nil
+//@ assume func (me *Peer) ConfirmSnapshotForPeer
+//@   requires me != nil
+//@   modifies *
+//@ assume func (me *Peer) GetNeighbors
+//@   requires me != nil
+//@   modifies nothing
+//@   ensures [nonnil] forall i int :: 0 <= i && i < len(result) ==> result[i] != nil
+//@ assume func (me *Peer) GetRemoteRelayers
+//@   requires me != nil
+//@   modifies nothing
+//@   ensures [nonnil] forall i int :: 0 <= i && i < len(result) ==> result[i] != nil
+//@ assume func (me *Peer) offerToPeerWithCacheCheck
+//@   requires me != nil && p != nil && msg != nil
+//@   modifies nothing -- pushes to the peer's ring buffers / cache (not modelled); does not touch the Peer fields or slices read by its callers
+//@ assume func (m *relayersMap) Add
+//@   modifies nothing -- updates the map inside m only (not modelled)
+//@ assume func (mp *MetricPool) handle
+//@   modifies nothing
+
+//@ spec PeerOK(me *Peer) bool = me != nil && me.handle != nil && me.receivedMetric != nil
+
+//@ func (me *Peer) handlePeerMessage
+//@   property C08
+//@   requires [peer] PeerOK(me) -- NewPeer sets handle and the metric pools once; never reassigned
+//@   requires [parsed] MsgOK(msg) -- established by parseNetworkMessage's [handler-pre] at both call sites (loopReceiveMessage via the channel, relayOrHandlePeerMessage directly)
+//@   modifies *
+
+//@ func (me *Peer) relayOrHandlePeerMessage
+//@   property C08
+//@   requires [peer] PeerOK(me)
+//@   requires [parsed] MsgOK(msg)
+//@   modifies *
+//@   loop 0 invariant forall k int :: 0 <= k && k < len(relayers) ==> relayers[k] != nil
+
+//@ func (me *Peer) updateRemoteRelayerConsumers
+//@   property C08
+//@   requires [peer] PeerOK(me)
+//@   modifies *
+//@   loop 0 invariant 0 <= c && c * 169 <= len(data_0)
+
+// ───────────── round trip of the fixed-layout messages: builder postcondition + parser postconditions ⇒ same type and field values ─────────────
+//@ -- b is the builder's result (its [layout]/[hash]/[response] postconditions are the first `requires`), m the parser's result on b
+//@ -- ([fixed-accept] gives err == nil from the length alone; [some] and [fixed-fields] are the second `requires`). Both hold in the same heap state
+//@ -- because the parser reads old(data[..]) = the bytes as built.
+
+//@ lemma ConfirmRoundTrip(b []byte, h crypto.Hash, m *PeerMessage)
+//@   property C08
+//@   requires len(b) == 33 && b[0] == PeerMessageTypeSnapshotConfirm && HashAt(b, 1, h)
+//@   requires m != nil && m.Type == b[0] && (forall j int :: 0 <= j && j < 32 ==> m.SnapshotHash[j] == b[1 + j])
+//@   ensures [accepted] len(b) == FixedSize(b[0])
+//@   ensures [same] m.Type == PeerMessageTypeSnapshotConfirm && (forall j int :: 0 <= j && j < 32 ==> m.SnapshotHash[j] == h[j])
+
+//@ lemma RequestRoundTrip(b []byte, h crypto.Hash, m *PeerMessage)
+//@   property C08
+//@   requires len(b) == 33 && b[0] == PeerMessageTypeTransactionRequest && HashAt(b, 1, h)
+//@   requires m != nil && m.Type == b[0] && (forall j int :: 0 <= j && j < 32 ==> m.TransactionHash[j] == b[1 + j])
+//@   ensures [accepted] len(b) == FixedSize(b[0])
+//@   ensures [same] m.Type == PeerMessageTypeTransactionRequest && (forall j int :: 0 <= j && j < 32 ==> m.TransactionHash[j] == h[j])
+
+//@ lemma ResponseRoundTrip(b []byte, h crypto.Hash, r [32]byte, m *PeerMessage)
+//@   property C08
+//@   requires len(b) == 65 && b[0] == PeerMessageTypeBatchSnapshotResponse && HashAt(b, 1, h) && (forall j int :: 0 <= j && j < 32 ==> b[33 + j] == r[j])
+//@   requires m != nil && m.Type == b[0] && (forall j int :: 0 <= j && j < 32 ==> m.SnapshotHash[j] == b[1 + j] && m.Response[j] == b[33 + j])
+//@   ensures [accepted] len(b) == FixedSize(b[0])
+//@   ensures [same] m.Type == PeerMessageTypeBatchSnapshotResponse && (forall j int :: 0 <= j && j < 32 ==> m.SnapshotHash[j] == h[j] && m.Response[j] == r[j])
+
+//@ -- DESIGN §6 candidate, decided: an EMPTY commitment list is built (67 bytes, [layout] of buildCommitmentsMessage) and always rejected ([short-commitments]).
+//@ lemma EmptyCommitmentsRejected(n int, l int)
+//@   property C08
+//@   requires 0 <= n && n <= 1024 && l == 67 + 32 * n
+//@   ensures [zero-rejected] n == 0 ==> l < 80
+//@   ensures [nonzero-pass-size] n >= 1 ==> l >= 80
+
+// ───────────── receive framing: who establishes parseNetworkMessage's precondition ─────────────
+//@ -- func (c *QuicClient) receiveWithLimit: contract in zz_contracts_c31_verif.go (properties C31, C08)
+
+//@ func (c *QuicClient) Receive
+//@   property C08
+//@   requires [client] c != nil && c.stream != nil
+//@   requires ghostint(rpos, c.stream) >= 0          -- ghost well-formedness (see receiveWithLimit)
+//@   ensures [bounded] err == nil ==> result0 != nil && len(result0.Data) <= TransportMessageMaxSize
